@@ -33,6 +33,10 @@ pub const SEAM_SUBS: u8 = 39;
 pub const SEAM_ALLOC: u8 = 40;
 /// Drop of a value of the seam data type
 pub const SEAM_DROP: u8 = 41;
+/// a basic-block edge of instrumented code (SanitizerCoverage trace-pc-guard; `sim_bb` build only)
+pub const SEAM_BB: u8 = 42;
+/// a load or store (also relaxed/acquire/release atomic ones) of instrumented code (`sim_bb` build only)
+pub const SEAM_MEM: u8 = 43;
 pub const N_SITE_IDS: usize = 48;
 
 pub fn site_name(s: u8) -> &'static str {
@@ -61,6 +65,8 @@ pub fn site_name(s: u8) -> &'static str {
         39 => "SeamSubsCallback",
         40 => "SeamAllocator",
         41 => "SeamDrop",
+        42 => "SeamBasicBlock",
+        43 => "SeamLoadStore",
         _ => "?",
     }
 }
@@ -272,6 +278,9 @@ struct Inner {
 pub struct Sim {
     /// 0: allocations are no scheduling points in this run; k: every k-th allocation of a thread is one
     alloc_every: u32,
+    /// 0: no basic-block / load-store points; else the mean gap between two of them
+    bb_gap: u32,
+    bb_seed: u64,
     inner: Mutex<Inner>,
     cvs: Vec<Condvar>,
     done_cv: Condvar,
@@ -284,6 +293,147 @@ thread_local! {
     static ALLOC_CTR: std::cell::Cell<u32> = const { std::cell::Cell::new(0) };
     static IN_POINT: std::cell::Cell<bool> = const { std::cell::Cell::new(false) };
 }
+
+// ---------------------------------------------------------------------------------------------
+// basic-block / load-store seam (sim_bb build)
+// ---------------------------------------------------------------------------------------------
+//
+// The SanitizerCoverage callbacks run at every basic-block edge and before every load and store of
+// instrumented code - including std's generic code instantiated in this crate. Nothing they call
+// may itself be instrumented and non-inlined, otherwise the callee's entry block calls the callback
+// again, for ever (`LocalKey::with` is such a function when the optimiser decides not to inline
+// it). So the per-thread state lives behind a pthread key: `pthread_getspecific` is libc,
+// not instrumented, and everything else on the fast path is plain field access.
+
+#[repr(C)]
+pub struct BbTls {
+    /// mean gap between two basic-block/load-store points; 0 = off
+    gap: u32,
+    countdown: u32,
+    rng: u64,
+    /// the thread is inside the scheduler (mirror of IN_POINT)
+    in_point: u32,
+    in_log: u32,
+    log_on: u32,
+    pub log: Vec<u64>,
+}
+
+static mut BB_KEY: u32 = u32::MAX;
+
+extern "C" {
+    fn pthread_key_create(key: *mut u32, dtor: Option<extern "C" fn(*mut u8)>) -> i32;
+    fn pthread_getspecific(key: u32) -> *mut u8;
+    fn pthread_setspecific(key: u32, v: *const u8) -> i32;
+}
+
+/// once per process, before any thread is attached
+pub fn bb_init() {
+    unsafe {
+        let mut k: u32 = 0;
+        if pthread_key_create(&mut k, None) == 0 {
+            std::ptr::write_volatile(&raw mut BB_KEY, k);
+        }
+    }
+}
+
+#[inline(always)]
+fn bb_tls() -> *mut BbTls {
+    unsafe {
+        let k = std::ptr::read_volatile(&raw const BB_KEY);
+        if k == u32::MAX {
+            std::ptr::null_mut()
+        } else {
+            pthread_getspecific(k) as *mut BbTls
+        }
+    }
+}
+
+fn bb_attach(gap: u32, seed: u64, tid: usize, log_on: bool) {
+    if gap == 0 {
+        return;
+    }
+    let t = Box::new(BbTls {
+        gap,
+        countdown: 1 + (tid as u32 * 7) % 13,
+        rng: (seed ^ 0x9E37_79B9_7F4A_7C15u64.wrapping_mul(tid as u64 + 1)) | 1,
+        in_point: 1,
+        in_log: 0,
+        log_on: log_on as u32,
+        log: Vec::new(),
+    });
+    unsafe {
+        let k = std::ptr::read_volatile(&raw const BB_KEY);
+        if k != u32::MAX {
+            pthread_setspecific(k, Box::into_raw(t) as *const u8);
+        }
+    }
+}
+
+/// switches the seam off for this thread and hands back the callback log (debugging aid)
+fn bb_detach() -> Vec<u64> {
+    let t = bb_tls();
+    if t.is_null() {
+        return Vec::new();
+    }
+    unsafe {
+        (*t).gap = 0;
+        std::mem::take(&mut (*t).log)
+    }
+}
+
+#[inline(always)]
+fn bb_set_in_point(v: u32) {
+    let t = bb_tls();
+    if !t.is_null() {
+        unsafe { (*t).in_point = v };
+    }
+}
+
+/// Called from the SanitizerCoverage callbacks. `ra` is the callback's return address (only used
+/// by the debugging log). When the thread's countdown expires the next gap is drawn from the
+/// thread's own deterministic generator (seeded from the run seed and the thread id, so the
+/// sequence of points is a function of the code path only) and an ordinary scheduling point is
+/// taken. Gaps are a mixture: mostly around the configured mean, sometimes 1-3 callbacks, so that
+/// windows of a few instructions are split as well.
+#[inline(always)]
+pub fn bb_point(site: u8, ra: u64) {
+    let t = bb_tls();
+    if t.is_null() {
+        return;
+    }
+    let t = unsafe { &mut *t };
+    if t.gap == 0 || t.in_point != 0 {
+        return;
+    }
+    if t.log_on != 0 && t.in_log == 0 {
+        t.in_log = 1;
+        t.log.push(ra);
+        t.in_log = 0;
+    }
+    t.countdown = t.countdown.wrapping_sub(1);
+    if t.countdown != 0 {
+        return;
+    }
+    // xorshift64*
+    let mut x = t.rng;
+    x ^= x >> 12;
+    x ^= x << 25;
+    x ^= x >> 27;
+    t.rng = x;
+    let r = x.wrapping_mul(0x2545_F491_4F6C_DD1D) >> 33;
+    let gap = t.gap as u64;
+    let next = match r % 8 {
+        0 | 1 => 1 + (r >> 3) % 3,
+        2 => 1 + (r >> 3) % 24,
+        _ => 1 + (r >> 3) % (2 * gap),
+    };
+    t.countdown = next as u32;
+    point(site);
+}
+
+pub static BB_LOG_ALL: std::sync::atomic::AtomicBool = std::sync::atomic::AtomicBool::new(false);
+/// debugging aid: per-thread logs of all instrumentation callbacks are collected here at thread end
+pub static CB_LOGS: Mutex<Vec<(usize, Vec<u64>)>> = Mutex::new(Vec::new());
 
 /// Called by the global allocator before every allocation. Must neither allocate nor panic.
 /// Only threads attached to a simulator whose run enabled allocator points ever get past the
@@ -317,6 +467,8 @@ pub fn alloc_point() {
 struct InPoint;
 impl InPoint {
     fn enter() -> Option<InPoint> {
+        // the mirror in the pthread-key state is what the instrumentation callbacks look at
+        bb_set_in_point(1);
         let was = IN_POINT.try_with(|c| c.replace(true)).unwrap_or(true);
         if was {
             None
@@ -328,6 +480,7 @@ impl InPoint {
 impl Drop for InPoint {
     fn drop(&mut self) {
         let _ = IN_POINT.try_with(|c| c.set(false));
+        bb_set_in_point(0);
     }
 }
 
@@ -420,7 +573,7 @@ pub enum Done {
 }
 
 impl Sim {
-    pub fn new(n: usize, source: Source, faults: Vec<FaultSpec>, max_steps: u64, alloc_every: u32) -> Arc<Sim> {
+    pub fn new(n: usize, source: Source, faults: Vec<FaultSpec>, max_steps: u64, alloc_every: u32, bb_gap: u32, bb_seed: u64) -> Arc<Sim> {
         let decider = match source {
             Source::Policy { kind, seed } => Decider::Policy(PolicyState::new(kind, seed, n)),
             Source::Strict(v) => Decider::Strict(v, 0),
@@ -429,6 +582,8 @@ impl Sim {
         let nf = faults.len();
         Arc::new(Sim {
             alloc_every,
+            bb_gap,
+            bb_seed,
             inner: Mutex::new(Inner {
                 os_tid: vec![0; n],
                 status: vec![St::Ready; n],
@@ -462,6 +617,7 @@ impl Sim {
         CUR.with(|c| *c.borrow_mut() = Some((self.clone(), tid)));
         ALLOC_CTR.with(|c| c.set(0));
         ALLOC_EVERY.with(|c| c.set(self.alloc_every));
+        bb_attach(self.bb_gap, self.bb_seed, tid, BB_LOG_ALL.load(std::sync::atomic::Ordering::Relaxed));
         let mut g = lock(&self.inner);
         g.os_tid[tid] = unsafe { syscall(186 /* SYS_gettid on x86_64 */) };
         while g.current != Some(tid) {
@@ -495,6 +651,10 @@ impl Sim {
     /// Called by a simulated thread when it has run all its operations.
     pub fn finish(&self, tid: usize) {
         let _guard = InPoint::enter();
+        let l = bb_detach();
+        if !l.is_empty() {
+            CB_LOGS.lock().unwrap().push((tid, l));
+        }
         ALLOC_EVERY.with(|c| c.set(0));
         CUR.with(|c| *c.borrow_mut() = None);
         let mut g = lock(&self.inner);
